@@ -10,6 +10,7 @@ description at construction.  At the end a second independent copy replays the h
 """
 
 import collections
+import os
 
 from zcv import compose, digest, gen, loadcheck, refload
 from zcv.core import Result, failure
@@ -131,6 +132,15 @@ def run_history(ast, packages, ops):
     comp.packages = {p: {"component.xml": gen.render_schema(a, root="component")} for p, a in packages.items()}
     out = []
     stats = collections.Counter()
+    late = None
+    for pa in packages.values():
+        for t in pa["types"]:
+            for it in t["items"]:
+                if (it.get("datatype") or "").startswith("zcvlate_"):
+                    late = it["datatype"].split(".")[0]
+    if late:
+        comp.files["zcv-late/%s.py" % late] = "def conv(value):\n    return 'late:' + value\n"
+    late_dir = None
     try:
         main = comp.materialise()
         try:
@@ -157,6 +167,14 @@ def run_history(ast, packages, ops):
                     mutate_everything(r)
                 stats["mutations"] += 1
                 results = []
+            elif op["op"] == "enable-late":
+                if late and late_dir is None:
+                    import importlib
+                    import sys
+                    late_dir = os.path.join(comp.root, "zcv-late")
+                    sys.path.append(late_dir)
+                    importlib.invalidate_caches()
+                    stats["module-made-importable"] += 1
             else:
                 ov = op.get("overrides") or ()
                 got_aged = loadcheck.real_load(aged, op["text"], url=MAIN, overrides=ov)
@@ -242,7 +260,17 @@ def run_history(ast, packages, ops):
                     baseline = now
         # teardown: an independent copy replays the loads
         j = 0
+        if late_dir is not None:
+            # back to the world in which the history started
+            import importlib
+            import sys
+            sys.path.remove(late_dir)
+            sys.modules.pop(late, None)
+            importlib.invalidate_caches()
         for op in ops:
+            if op["op"] == "enable-late" and late_dir is not None and late_dir not in sys.path:
+                sys.path.append(late_dir)
+                importlib.invalidate_caches()
             if op["op"] != "load":
                 continue
             w = outcome(loadcheck.real_load(witness, op["text"], url=MAIN, overrides=op.get("overrides") or ()))
@@ -252,6 +280,11 @@ def run_history(ast, packages, ops):
                 out.append(("second-copy-replays-differently", "load %d" % j))
                 break
     finally:
+        if late_dir is not None:
+            import sys
+            if late_dir in sys.path:
+                sys.path.remove(late_dir)
+            sys.modules.pop(late, None)
         comp.cleanup()
     return out, stats
 
@@ -321,6 +354,20 @@ def run_shard(spec):
                                "implements": rng.choice(ast["abstract"]), "extends": b["name"], "items": []})
             packages[pname] = {"abstract": [], "types": ptypes, "imports": []}
         ops = gen_history(rng, ast, sm, packages)
+        if rng.random() < 0.12:
+            # a component whose datatype lives in a module that only becomes importable in the
+            # course of the history (the application extends sys.path): before that, loads that
+            # import the component fail, afterwards they work -- on an aged schema as on a fresh one
+            pl = rng.choice(sorted(packages))
+            mod = "zcvlate_%d_%d" % (spec["seed"] % 1000, i)
+            packages[pl]["types"][0]["items"].append({"kind": "key", "name": "zzlate", "attribute": None, "required": False,
+                                                      "handler": None, "datatype": mod + ".conv", "default": "1"})
+            imp = {"op": "load", "text": "%%import %s\n<%s late/>\n" % (pl, packages[pl]["types"][0]["name"]), "import": True}
+            k = rng.randint(0, len(ops))
+            ops[k:k] = [dict(imp), {"op": "enable-late"}, dict(imp)]
+            if rng.random() < 0.5:
+                ops.insert(rng.randint(0, k), dict(imp))
+            counters["history-with:module-importable-later"] += 1
         res.evaluations += 1
         fl, stats = run_history(ast, packages, ops)
         counters.update(stats)
